@@ -59,6 +59,7 @@ class FormTable:
             if name.startswith("_") and "_to_" in name and not name.startswith("__"):
                 a, b = name[1:].split("_to_")
                 self.conversions[(a, b)] = f
+                repo.consulted.add((FORMS, f"Form.{name}"))
         cache = self.module.assigns.get("_cache")
         if not isinstance(cache, ast.Dict):
             raise AnalysisError(f"{FORMS}: _cache is not a dict literal")
